@@ -44,7 +44,7 @@ func tierSizes(c *vf.Ctx) sizes {
 	if c.Thorough() {
 		return sizes{cond: 200000, arith: 130000, source: 24000, sort: 8000, stmt: 50000, opts: 32000, plan: 20000, chunk: 32000}
 	}
-	return sizes{cond: 12000, arith: 8000, source: 2000, sort: 1000, stmt: 4000, opts: 2000, plan: 1500, chunk: 2000}
+	return sizes{cond: 8000, arith: 5000, source: 1200, sort: 600, stmt: 2500, opts: 2000, plan: 1000, chunk: 2000}
 }
 
 func caseRand(c *vf.Ctx, part, i int) *rand.Rand {
